@@ -42,6 +42,11 @@ impl Scheduler {
 
     pub async fn next(self: &Arc<Self>) -> bool {
         if let Some(signal) = self.queue.next().await {
+            #[cfg(feature = "verif")]
+            let _verif_guard = match &signal {
+                Signal::Task(_) => Some(crate::verif::InflightGuard),
+                Signal::Terminal => None,
+            };
             debug!("next: {:?}", signal);
             match signal {
                 Signal::Task(task) => {
@@ -61,8 +66,6 @@ impl Scheduler {
                     return false;
                 }
             }
-            #[cfg(feature = "verif")]
-            crate::verif::inflight_dec();
         }
 
         true
